@@ -711,3 +711,13 @@ M('scan-D58-shape-stat-unprotected', ['C13', 'C14'], RL, "                try:\n
 # ------------------------------------------------------------------------------------------------------ round 9 seeds and D59 .. shapes
 M('cli-D60-shape-source-logged-raw', ['C15'], CLI, 'logger.info(f"add {config.id}.sources={hide_uri_users_and_pwds(sources[i])!r}")', 'logger.info(f"add {config.id}.sources={sources[i]!r}")', ['C15.R1'])
 M('cli-config-logged-raw', ['C15'], CLI, "    config_by_id = {}  # {'config.id': config, ...}\n", "    config_by_id = {}  # {'config.id': config, ...}\n    logger.debug(f'filters: {[c for _, c, _ in filters]}')\n", ['C15.R1'])
+M('seed9-C18-run-id-private-rng', ['C18'], LN, "        return str(uuid.uuid4())", "        return str(uuid.UUID(int=self._rng.getrandbits(128), version=4))", ['C18.R3'])
+M('seed9-C04-uid-private-rng', ['C04', 'C05'], UTL, "    return ''.join(choice(s) for _ in range(count))", "    return ''.join(_RNG.choices(s, k=count))\n\n\n_RNG = Random()  # a generator of our own", ['C04.R6', 'C05.R7'])
+M('seed9-C09-decoder-strips', ['C09', 'C02', 'C03'], Z, "topic      = (t := msg[0])[t.startswith(TOPIC_DELIM_B) : -1].decode()", "topic      = msg[0].decode().strip(TOPIC_DELIM)", ['C09.R14', 'C02.R5', 'C03.R11'])
+M('seed9-C09-decoder-rstrips', ['C09', 'C02'], Z, "topic      = (t := msg[0])[t.startswith(TOPIC_DELIM_B) : -1].decode()", "topic      = (t := msg[0])[t.startswith(TOPIC_DELIM_B):].decode().rstrip(TOPIC_DELIM)", ['C09.R14', 'C02.R5'])
+M('seed9-C02-zero-copy-publish', ['C02'], Z, "                    pub.send_multipart(msg)\n\n            for pub in pubs:  # publish heartbeat", "                    pub.send_multipart(msg, copy=False)\n\n            for pub in pubs:  # publish heartbeat", ['C02.R12'])
+M('seed9-C16-histogram-first-separator', ['C16'], LN, "            if k.endswith('_buckets') or k.endswith('_counts'):", "            parent_, _, leaf_ = k.partition('__')\n            if parent_.endswith('_histogram') and leaf_ in ('buckets', 'counts'):", ['C16.R7'])
+M('C16-histogram-elements-stringified', ['C16'], LN, "                data[k] = [float(x) if isinstance(x, (int, float)) else str(x) for x in v]", "                data[k] = [str(float(x)) if isinstance(x, (int, float)) else str(x) for x in v]", ['C16.R7'])
+M('seed9-C17-filter-wide-options-win', ['C17'], VI, "[{**default_options, **options} for options in optionss]", "[{**options, **default_options} for options in optionss]", ['C17.R10'])
+M('cli-ipc-user-outputs-not-recorded-2', ['C12'], CLI, "            elif output.startswith(\"ipc://\"):\n                ipc_outputs.add(only_mq_addr(output))\n", "            elif output.startswith(\"ipc://\"):\n                pass\n", ['C12.R9'])
+M('seed9-C06-recv-state-only-when-published', ['C06', 'C02'], MQ, "        self.recv_state = recv_state if frames is not None else None  #", "        if metrics is not None:\n            self.recv_state = recv_state if frames is not None else None  #", ['C06.R14', 'C02.R7'])
